@@ -20,11 +20,12 @@ REPO = os.environ.get("SPECTRUM_REPO", "/repo")
 
 
 class Task:
-    def __init__(self, name, fn, kind="unbounded", timeout=300, functions=()):
+    def __init__(self, name, fn, kind="unbounded", timeout=300, functions=(), prerun=False):
         self.name = name
         self.fn = fn
         self.kind = kind
         self.timeout = timeout
+        self.prerun = prerun      # exact-algebra tasks whose specification is path independent: try to refute at a rational point first
         self.functions = list(functions)
 
 
@@ -272,7 +273,30 @@ def _child(task, prop, tier, seed, conn):
     try:
         sys.setrecursionlimit(20000)
         tc = TaskCtx(task, prop, tier, seed)
-        task.fn(tc)
+        refuted = False
+        if getattr(task, "prerun", False):
+            tc.point_mode = True
+            bad = []
+            for attempt in range(4):
+                # a random point may leave the generic domain (non positive-definite sample -> the code raises): try another one
+                tc.point_try, tc.point_evals = attempt, 0
+                tc.results = []
+                try:
+                    task.fn(tc)
+                except Exception:
+                    pass             # the pre-run is an accelerator for refutations only
+                bad = [r for r in tc.results if r.status == "refuted"]
+                if bad or tc.point_evals:
+                    break
+            tc.point_mode = False
+            if bad:
+                tc.results = bad
+                tc.notes.append("refuted by exact evaluation of the real code at a rational point; symbolic run skipped")
+                refuted = True
+            else:
+                tc.results, tc.samples, tc.canaries, tc.notes, tc.dom = [], [], [], [], None
+        if not refuted:
+            task.fn(tc)
         out = {"results": [dict(r.to_dict(), clause=getattr(r, "clause", None), replay=getattr(r, "replay", None))
                            for r in tc.results],
                "samples": tc.samples, "canaries": tc.canaries, "notes": tc.notes + (tc.dom.notes if tc.dom and hasattr(tc.dom, "notes") else []),
@@ -403,6 +427,9 @@ def run_check(prop, module, tier, seed):
         print("internal error: no tasks for %s" % prop)
         return 3
     done = run_tasks(tasks, prop, tier, seed)
+    if os.environ.get("PYVC_TIMES"):
+        for w, n in sorted(((d.get("wall", 0.0), n) for n, d in done.items()), reverse=True)[:12]:
+            print("  wall %7.1fs  %s%s" % (w, n, "  [time-out]" if done[n].get("timeout") else ""), file=sys.stderr)
     # verdicts must not depend on machine load: tasks with an undecided obligation (time-out, or a
     # counter-model over uninterpreted Sum/DTFT symbols, which may just mean a congruence lemma timed
     # out) are re-run once, a few at a time, with solver budgets multiplied by 5
